@@ -32,6 +32,19 @@ META = {
 }
 
 
+import enum as _enum
+
+
+class TitleE(str, _enum.Enum):
+    "a title declared the way analysis code declares its samples: a member of a str-valued Enum (str() of it is not its value)"
+    DIJET = "dijet_2018"
+
+
+class LoudTitle(str):
+    def __str__(self):
+        return "<title " + str.__str__(self) + ">"
+
+
 class ExecMonitor:
     """History checker for one execute call (client-boundary call/return + executor enter/leave)."""
 
@@ -62,8 +75,8 @@ class ExecMonitor:
         exp = astx.dump_fields(refimpl.remove_empty(e.s.query_ast))
         if en["dump"] != exp:
             ctx.violation("wrong-ast", f"{where}: executor of [{e.how}] received {astx.unparse(en['ast'])[:200]}, stream renders (empty MetaData removed) {astx.unparse(refimpl.remove_empty(e.s.query_ast))[:200]}", wit)
-        if en["title"] != call["title"]:
-            ctx.violation("wrong-title", f"{where}: title {en['title']!r} != {call['title']!r}", wit)
+        if en["title"] != call["title"] or (call["title"] is not None and en["title"] is not call["title"] and type(en["title"]) is not type(call["title"])):
+            ctx.violation("wrong-title", f"{where}: the executor was handed title {en['title']!r} ({type(en['title']).__name__}), value() was given {call['title']!r} ({type(call['title']).__name__})", wit)
         try:
             root = find_EventDataset(en["ast"])
             if getattr(root, "_eds_object", None) is not e.ds:
@@ -154,10 +167,17 @@ def sync_history(ctx, hseed, nsteps):
             ov = rnd.random() < 0.25
             overrides += ov
             hist.trace.append(("execute", e.id, e.how, ov))
-            hist.execute(e, override=ov, title=rnd.choice([None, "title-a", "", "t'q"]), fail=rnd.random() < 0.2)
+            hist.execute(e, override=ov, title=rnd.choice([None, "title-a", "", "t'q", TitleE.DIJET, LoudTitle("sample-7")]), fail=rnd.random() < 0.2)
             kinds.append("X")
     ctx.case("sync:" + "".join(kinds), nontrivial=len(hist.datasets) >= 2 and overrides > 0)
     ctx.count("sync-histories")
+
+
+def odd_lambda():
+    """a stage function given as an ast the library builds and delivers but ast.unparse cannot render: a hand-made Call node without
+    the (optional) keywords field"""
+    c = ast.Call(func=ast.Name(id="f", ctx=ast.Load()), args=[ast.Attribute(value=ast.Name(id="e", ctx=ast.Load()), attr="x", ctx=ast.Load())])
+    return ast.Lambda(args=ast.arguments(posonlyargs=[], args=[ast.arg(arg="e")], kwonlyargs=[], kw_defaults=[], defaults=[]), body=c)
 
 
 def build_forest(rnd, hist, n):
@@ -166,6 +186,17 @@ def build_forest(rnd, hist, n):
         if e.terminal:
             continue
         k = rnd.random()
+        if k < 0.06 and getattr(e.ds, "untyped", False) and e.kind in ("uEvent", "other"):
+            hist.building += 1
+            try:
+                s_ = e.s.Select(odd_lambda())
+            except ValueError:
+                continue  # (a designed refusal: the items of this stream are records without a field x)
+            finally:
+                hist.building -= 1
+            hist._register(s_, "other", e.ds, e, "Select(<ast with a Call node that has no keywords field>)")
+            hist.mode_counts["stage-functions-ast.unparse-cannot-render"] = hist.mode_counts.get("stage-functions-ast.unparse-cannot-render", 0) + 1
+            continue
         if k < 0.6:
             hist.random_derive(e)
         elif k < 0.75:
